@@ -23,7 +23,9 @@ QUERIES = ['s', 't', 'f', 'b', 'n', 'l', 'l[*]', 'ls[*]', 'e', 'e[*]', 'm', 'm.k
            'lm[ k == 5 ]', 'lm[ k == 77 ]', 'missing[ k == 1 ]', 'm.missing[ k == 1 ]', 'lm[ j exists ]',
            '%qv', '%mv', '%lv', '%lit', '%ev', 'm[ keys == "k" ]', 'm[ keys == "zz" ]', 'n[ k == 1 ]']
 RHS = ['5', '1', '"ab"', '"zz"', '1.5', 'true', 'null', '[1, 5]', '["ab", "c"]', '[]', 'r[1,5]', '/^a/',
-       's2', 't2', 'l', 'l[*]', 'missing', '%lit', '%qv', '{k: 5, j: "x"}']
+       's2', 't2', 'l', 'l[*]', 'missing', '%lit', '%qv', '{k: 5, j: "x"}',
+       # right-hand sides that select NOTHING (a comparison against them is skipped, negated or not)
+       'lm[ k == 77 ].k', '%ev', 'lm[ k == 77 ]']
 BINARY = ['==', 'in', '>', '>=', '<', '<=']
 UNARY = ['exists', 'empty', 'is_string', 'is_list', 'is_struct', 'is_bool', 'is_int', 'is_float', 'is_null']
 HEADER = 'let lit = 5\nlet qv = s2\nlet mv = missing.x\nlet lv = l[*]\nlet ev = lm[ k == 77 ]\n'
@@ -229,7 +231,12 @@ def run(ctx):
                         groups.append((doc, q, some, op, rhs, A, C))
     total = len(groups)
     if ctx.tier == 'quick':
-        groups = rng.sample(groups, 900)
+        # stratified: every (operator, right-hand side) cell gets the same number of (document, query, all/some) draws
+        cells = {}
+        for g in groups:
+            cells.setdefault((g[3], g[4]), []).append(g)
+        per = max(1, 1000 // len(cells))
+        groups = [g for key in sorted(cells, key=str) for g in rng.sample(cells[key], min(per, len(cells[key])))]
     n, dist = run_groups(ctx, groups, 'c03')
     n3, dist3 = run_groups(ctx, random_groups(ctx, 400 if ctx.tier == 'quick' else 3000), 'c03rnd')
     ctx.coverage['random_clause_groups'] = n3
@@ -244,7 +251,7 @@ def run(ctx):
     ctx.coverage['rule'] = ('groups = document x query shape (scalar, list, list elements, empty list, map, missing, filtered, '
                             'indexed) x all/some x every unary and binary operator x right-hand side form (literals of every type, '
                             'queries, literal and query variables); each group is evaluated as c, not c, flip(c), not flip(c); '
-                            'distinct by construction; quick samples 900 of them with VERIF_SEED')
+                            'distinct by construction; quick draws the same number of groups from every (operator, right-hand side) cell with VERIF_SEED')
     ctx.sample({'rules': group_file(*variants('s', False, '==', '5')), 'data': json.dumps(DOCS[0])})
     ctx.sample({'rules': group_file(*variants('lm[*].k', True, '>', '1')), 'data': json.dumps(DOCS[0])})
     ctx.coverage['trusted_base'] = [
